@@ -115,6 +115,14 @@ class C03(Prop):
             lines.append("strm %s vec - %s" % (rng.choice(["strip", "never"]), ",".join("%s:%s" % (op, gen.hexs(c)) for c in chunks if c)))
         yield "stream-chunked-write_all", [l for l in lines if not l.endswith(" - ")]
         yield "stream-chunks-beyond-64KiB", big_chunk_cases(rng, tier == "thorough")
+        # a chunk cut right after a prefix that leaves a rare state behind, then a long plain run at a power-of-two length
+        lines = []
+        for data, cuts in gen.threshold_cases(rng, tier == "thorough"):
+            c = ",".join(map(str, cuts)) if cuts else "-"
+            lines.append("sbccat %s %s" % (gen.hexs(data), c))
+            chunks = [ch for ch in gen.apply_cuts(data, cuts) if ch]
+            lines.append("strm strip vec - " + ",".join("a:" + gen.hexs(ch) for ch in chunks))
+        yield "threshold-runs-after-rare-states", lines
         # two chunks through a StripStream / never-stream over the REAL stdout / stderr (child process, pipe captured) with
         # `.lock()` between them: handing the stream over is not a chunk boundary the result may depend on
         lines = []
